@@ -2,7 +2,7 @@
 //! monitors of C01, C02, C07, C08, C09, C10, C20 (each written from the property text, none of them
 //! consulting the model). The same run is the model's correspondence case (R-hist).
 use crate::json::Json;
-use crate::memsys::{Call, ClockMode, Disk};
+use crate::memsys::{Call, ClockMode, Disk, MemSys};
 use crate::rng::Rng;
 use crate::scenario::{self, disk_files, from_scratch, Flavor, GenParams, RuleOutcome, RuleSpec, Scenario};
 use crate::sexp;
@@ -1149,6 +1149,57 @@ fn paired(out : &mut Out, label : &str, coarse : bool, t0 : u64, ops : &[Op], fi
             }
         }
     }
+}
+
+/// C17 and kills: "the earlier record is kept". A repeated build with nothing changed (which rewrites every rule's history
+/// file) is killed at EVERY point of its mutation sequence; from each crash state the undeclared input changes, a
+/// re-execution is forced and the build must still report the contradiction: the record must have survived the kill.
+pub fn contradiction_after_kill(ctx : &Ctx, out : &mut Out)
+{
+    let mut rng = Rng::new(ctx.seed).fork(1711);
+    let n = if ctx.thorough { 60 } else { 6 };
+    let mut points = 0usize;
+    for i in 0..n
+    {
+        let mut r = rng.fork(i as u64);
+        let two = r.chance(1, 2);
+        let mut rules = vec![RuleSpec{targets : if two { vec!["t".to_string(), "t.log".to_string()] } else { vec!["t".to_string()] }, sources : vec!["s".to_string()],
+                                      script : if two { vec!["gen t @s @undeclared".to_string(), "gen t.log =log @s".to_string()] } else { vec!["gen t @s @undeclared".to_string()] }, raw_command : None}];
+        if r.chance(1, 2) { rules.push(RuleSpec{targets : vec!["other".to_string()], sources : vec!["s".to_string()], script : vec!["gen other =o @s".to_string()], raw_command : None}); }
+        if r.chance(1, 3) { rules.push(RuleSpec{targets : vec!["top".to_string()], sources : vec!["t".to_string()], script : vec!["gen top =T @t".to_string()], raw_command : None}); }
+        let sc = Scenario{rules : rules, split_tokens : false};
+        let mut driver = Driver::new(ClockMode::Fine, 1_000_000);
+        let prep = vec![Op::Write(RULES_PATH.to_string(), sc.render().into_bytes()), Op::Write("s".to_string(), r.pick(scenario::CONTENTS).as_bytes().to_vec()), Op::Write("undeclared".to_string(), b"U0".to_vec()), Op::Build(None)];
+        for op in prep.iter() { match op { Op::Build(_) | Op::Clean(_) => { driver.invoke(op, Policy::Serial); }, _ => driver.user(op) } driver.tick(); }
+        driver.record_snapshots = true;
+        let victim = driver.fork();
+        let inv = victim.invoke(&Op::Build(None), Policy::Serial);
+        let clock = victim.sys.with(|s| s.clock) + 5000;
+        let mut snaps : Vec<(Disk, String)> = inv.snapshots.clone();
+        snaps.push((inv.after.clone(), "end".to_string()));
+        for (j, (disk, what)) in snaps.iter().enumerate()
+        {
+            points += 1;
+            let d = Driver{sys : MemSys::from_disk(disk.clone(), ClockMode::Fine, clock), record_snapshots : false};
+            let cont = vec![Op::Write("undeclared".to_string(), b"U1".to_vec()), if r.chance(1, 2) { Op::Remove("t".to_string()) } else { Op::Write("t".to_string(), b"tampered".to_vec()) }];
+            for op in cont.iter() { d.user(op); d.tick(); }
+            let b = d.invoke(&Op::Build(None), Policy::Serial);
+            let reported = match &b.verdict { Verdict::WorkErrors(es) => es.iter().any(|e| e.starts_with("(Contradiction")), _ => false };
+            if !reported
+            {
+                let mut j2 = Json::obj();
+                j2.set("suite", Json::s("c17_kill"));
+                j2.set("ops", Json::Arr(prep.iter().map(|o| Json::s(&o.describe())).collect()));
+                j2.set("case", Json::s(&world::show_history_case(false, 1_000_000, &prep)));
+                j2.set("killed", Json::s(&format!("a repeated build, killed before its mutation #{} ({})", j, what)));
+                j2.set("then", Json::Arr(cont.iter().map(|o| Json::s(&o.describe())).chain(std::iter::once(Json::s("build None"))).collect()));
+                out.violation("C17:record-lost-by-a-kill", format!("a repeated build was killed before `{}`; afterwards the undeclared input changed and the rule ran again on identical declared sources with a different result, but the build gives {} instead of a contradiction: the earlier record did not survive", what, b.verdict.show()), j2);
+                break;
+            }
+        }
+        out.count("c17-kill-scenarios");
+    }
+    out.extra.set("c17_kill_points", Json::i(points));
 }
 
 /// C17: a rule that is not reproducible is reported, never silently accepted.
